@@ -4,7 +4,7 @@
 From Coq Require Import String Ascii List Bool ZArith Arith Lia.
 From NRI Require Import Base.Strs Base.Assoc Model.Types Model.Builders Spec.Apply Spec.AbsLedger Spec.BuildersSpec
   Proofs.KeyedProofs Proofs.CombineBase.
-From NRI Require Model.Convert.
+From NRI Require Model.Convert Model.Result.
 Import ListNotations.
 Open Scope string_scope.
 Open Scope list_scope.
@@ -668,8 +668,12 @@ Theorem scalar_setter_claims id r f v :
   g_claims (adjust_group id (build_adj [BRes r])) = [(id, IScal f)] /\ g_releases (adjust_group id (build_adj [BRes r])) = [].
 Proof.
   destruct r; cbn [rop_write]; intros E; inversion E; subst; clear E; try (split; reflexivity).
-  - destruct (String.eqb s "") eqn:Es; [discriminate|]. unfold adjust_group, build_adj. cbn. unfold str_plain. rewrite Es. split; reflexivity.
-  - destruct (String.eqb s "") eqn:Es; [discriminate|]. unfold adjust_group, build_adj. cbn. unfold str_plain. rewrite Es. split; reflexivity.
+  - destruct (String.eqb s "") eqn:Es; [discriminate|].
+    change (build_adj [BRes (RCPUSetCPUs s)]) with (adj_with_res adj_empty (res_with_scal res_empty (sassign CpuCpus (str_plain s) []))).
+    unfold str_plain. rewrite Es. split; reflexivity.
+  - destruct (String.eqb s "") eqn:Es; [discriminate|].
+    change (build_adj [BRes (RCPUSetMems s)]) with (adj_with_res adj_empty (res_with_scal res_empty (sassign CpuMems (str_plain s) []))).
+    unfold str_plain. rewrite Es. split; reflexivity.
 Qed.
 
 (* a plain string field written with "" stays unset: no claim at all *)
@@ -806,16 +810,15 @@ Proof.
     cbn [removal_mount m_dest] in H. rewrite rawkey_mark in H. cbn [removal_mount]. rewrite H. reflexivity.
   - (* AddEnv *)
     unfold apply_adj, build_adj. cbn [c_env fold_left apply_bop adj_with_env a_env adj_empty app].
-    rewrite alookup_env_pairs. change env_key with ref_env_key.
+    rewrite !alookup_env_pairs. change Result.env_key with ref_env_key.
     destruct (marked k) eqn:Hm.
-    + rewrite alookup_env_pairs. change env_key with ref_env_key.
-      pose proof (keyed_one_removed _ _ fst ref_env_key ref_env_oci (c_env c) (k, v) Hm) as H. cbn [fst] in H. rewrite H. reflexivity.
+    + pose proof (keyed_one_removed _ _ fst ref_env_key ref_env_oci (c_env c) (k, v) Hm) as H. cbn [fst] in H. rewrite H. reflexivity.
     + cbn [orb] in Hok. apply Nat.eqb_eq in Hok.
       pose proof (keyed_one_set _ _ fst ref_env_key ref_env_oci (c_env c) (k, v) Hm (env_oci_key k v Hok)) as H. cbn [fst] in H.
       rewrite H. cbn [option_map opt_eqb]. rewrite (env_oci_val k v Hok). apply String.eqb_refl.
   - (* RemoveEnv *)
     unfold apply_adj, build_adj. cbn [c_env fold_left apply_bop adj_with_env a_env adj_empty app].
-    rewrite alookup_env_pairs. change env_key with ref_env_key.
+    rewrite alookup_env_pairs. change Result.env_key with ref_env_key.
     pose proof (keyed_one_removed _ _ fst ref_env_key ref_env_oci (c_env c) (mark k, "") (marked_mark k)) as H.
     cbn [fst] in H. rewrite rawkey_mark in H. rewrite H. reflexivity.
   - (* SetArgs *)
@@ -869,7 +872,7 @@ Proof.
     rewrite H1, H2. cbn [opt_eqb]. rewrite mount_eqb_refl. split; reflexivity.
   - apply andb_true_iff in Hok. destruct Hok as [Hm Hq]. apply negb_true_iff in Hm. apply Nat.eqb_eq in Hq. rewrite Hm.
     unfold apply_adj, build_adj. cbn [c_env fold_left apply_bop adj_with_env a_env adj_empty app].
-    rewrite !alookup_env_pairs. change env_key with ref_env_key.
+    rewrite !alookup_env_pairs. change Result.env_key with ref_env_key.
     destruct (keyed_pair_set _ _ fst ref_env_key ref_env_oci (c_env c) (mark k, "") (k, v) eq_refl Hm (env_oci_key k v Hq)) as [H1 H2].
     cbn [fst] in H1, H2. rewrite H1, H2. cbn [option_map opt_eqb]. rewrite (env_oci_val k v Hq), String.eqb_refl. split; reflexivity.
   - apply negb_true_iff in Hok. unfold keyed_expect. rewrite Hok.
@@ -890,10 +893,11 @@ Proof.
   unfold apply_adj. cbn [adj_empty a_ann a_mounts a_env a_args a_hooks a_rlimits a_cdi a_devices a_res a_cgroups a_oom].
   rewrite !apply_keyed_nil, app_nil_r. cbn [apply_ann apply_args fold_left String.eqb].
   assert (Hh : hooks_append (c_hooks c) hooks_empty = c_hooks c).
-  { destruct (c_hooks c). unfold hooks_append, hooks_empty. cbn. rewrite !app_nil_r. reflexivity. }
+  { destruct (c_hooks c) as [h1 h2 h3 h4 h5 h6]. unfold hooks_append, hooks_empty.
+    cbn [hk_prestart hk_createruntime hk_createcontainer hk_startcontainer hk_poststart hk_poststop]. rewrite !app_nil_r. reflexivity. }
   assert (Hr : apply_res (c_res c) res_empty = c_res c).
-  { destruct (c_res c). unfold apply_res, res_empty. cbn [r_scal r_hp r_uni fold_left]. rewrite app_nil_r.
-    assert (Hs : apply_scal r_scal [] = r_scal) by reflexivity. rewrite Hs. reflexivity. }
+  { destruct (c_res c) as [sc hp uni]. unfold apply_res, res_empty. cbn [r_scal r_hp r_uni fold_left]. rewrite app_nil_r.
+    assert (Hs : apply_scal sc [] = sc) by reflexivity. rewrite Hs. reflexivity. }
   rewrite Hh, Hr. destruct c; reflexivity.
 Qed.
 
@@ -924,9 +928,9 @@ Definition same_outside (fam : family) (c c' : container) : Prop :=
 Theorem single_frame c op : same_outside (op_family op) c (apply_adj c (build_adj [op])).
 Proof.
   pose proof (apply_adj_empty c) as H0.
-  assert (Hc : forall (P : container -> Prop), P (apply_adj c adj_empty) -> P c) by (intros P; rewrite H0; trivial).
   unfold same_outside.
   destruct op; cbn [op_family]; unfold build_adj; cbn [fold_left apply_bop];
-    repeat split; try (intros _); try (intros Hn; exfalso; apply Hn; reflexivity);
-    try (match goal with |- ?f (apply_adj c ?a) = ?f c => rewrite <- H0 at 2; reflexivity end).
+    repeat split; try (intros Hn; try (exfalso; apply Hn; reflexivity));
+    match goal with |- ?f (apply_adj c ?a) = ?f c =>
+      transitivity (f (apply_adj c adj_empty)); [reflexivity|rewrite H0; reflexivity] end.
 Qed.
